@@ -96,7 +96,7 @@ CHECKS = {
             'DESIGN.md 5.C15'),
     'C05': ('E-conc', 'model_checking',
             'stateless exploration of ALL transaction-level interleavings of concurrent requests on the real service, with state matching',
-            'Three start states x every unordered pair (with repetition) of 24 provider-writing operations (incl. the generation-less provider rename and writes that empty the provider), generation-'
+            'Three start states x every unordered pair (with repetition) of 25 provider-writing operations (incl. the generation-less provider rename and writes that empty the provider), generation-'
             'carrying ones with current, stale and not-yet-reached generations, x all interleavings at top-level-transaction granularity '
             '(thorough: plus triples, preemption bound 3). Each request runs in its own greenlet on the real WSGI stack; '
             'every complete schedule class is judged: no 5xx, winners equivalent to a serial order, losers 409 '
